@@ -61,7 +61,7 @@ Run(P, S, tab, vis, def, st) ==
       [] nd.op = "retr" -> Out(st.r)
       [] nd.op = "in"   -> Next(S.inp[nd.a][nd.b])
       [] nd.op = "cell" -> Next(S.cell[nd.a])
-      [] nd.op = "untr" -> Next(0)
+      [] nd.op \in {"untr", "rv"} -> Next(0)
       [] nd.op = "orc"  -> Go([st EXCEPT !.n = Kid(nd, 0), !.r = st.r | nd.a])
       [] nd.op \in {"call", "orcall"} ->
             LET cr == CallFn(P, S, tab, vis, nd.a) IN
@@ -149,17 +149,48 @@ DivClose(P, S, tab, n) ==
     IN IF more = {} \/ n = 0 THEN tab
        ELSE DivClose(P, S, [j \in 1..Len(P.fns) |-> IF j \in more THEN -7 ELSE tab[j]], n - 1)
 
+(* Programs that mix functions with and without cycle handling (chain bodies: the calls of a *)
+(* body do not depend on values).  A request panics with a cycle error iff its depth-first  *)
+(* evaluation re-enters a function WITHOUT cycle handling that is still executing; a        *)
+(* function with cycle handling that is re-entered yields its provisional value, completed  *)
+(* functions are not entered again.                                                         *)
+ZeroTabS(P) == [j \in 1..Len(P.fns) |-> 0]
+CalleesOf(P, S, g) == Run(P, S, ZeroTabS(P), {}, P.fns[g], St0(<<>>, <<>>)).cs
+HasRecovery(P, g) == P.fns[g].kind \in {"fix", "fixjoin", "fb"}
+
+RECURSIVE SimCall(_, _, _, _, _)
+RECURSIVE SimSeq(_, _, _, _, _)
+SimCall(P, S, g, stack, st) ==
+    IF st.panic \/ g \in st.done THEN st
+    ELSE IF InSeq(g, stack) THEN (IF HasRecovery(P, g) THEN st ELSE [st EXCEPT !.panic = TRUE])
+    ELSE LET st2 == SimSeq(P, S, CalleesOf(P, S, g), Append(stack, g), st) IN
+         IF st2.panic THEN st2 ELSE [st2 EXCEPT !.done = st2.done \cup {g}]
+SimSeq(P, S, cs, stack, st) ==
+    IF cs = <<>> \/ st.panic THEN st
+    ELSE SimSeq(P, S, Tail(cs), stack, SimCall(P, S, Head(cs), stack, st))
+CycPanic(P, S, e) == SimCall(P, S, e, <<>>, [panic |-> FALSE, done |-> {}]).panic
+IsMixed(P) == (\E j \in 1..Len(P.fns) : HasRecovery(P, j)) /\ (\E j \in 1..Len(P.fns) : ~HasRecovery(P, j))
+
 (* Table of results when cyclic functions are resolved by fixpoint iteration (C12, C15).    *)
+(* err = "maycycle": the request has the given value, but starting from this key a function *)
+(* without cycle handling is re-entered, so a cycle panic is the outcome unless memoized    *)
+(* results of earlier requests cut the evaluation short (C14).                              *)
 SemTableFix(P, S) ==
     LET L == Lfp(P, S)
         T2 == FixStep(P, S, L.tab)
         tab0 == [j \in 1..Len(P.fns) |-> IF IsFix(P, j) /\ T2[j] # L.tab[j] THEN -7 ELSE L.tab[j]]
         tab == IF L.stable THEN L.tab ELSE DivClose(P, S, tab0, Len(P.fns))
+        base == [j \in 1..Len(P.fns) |->
+                    IF IsFix(P, j)
+                    THEN (IF tab[j] = -7 THEN ErrRes("diverge")
+                          ELSE LET r == Run(P, S, tab, {}, P.fns[j], St0(<<>>, <<>>)) IN
+                               IF r.err = "cycle" THEN ErrRes("cycle") ELSE Res(tab[j], <<>>, <<>>, <<>>, ""))
+                    ELSE CallFn(P, S, tab, {}, j)]
     IN
     [j \in 1..Len(P.fns) |->
-        IF IsFix(P, j)
-        THEN (IF tab[j] = -7 THEN ErrRes("diverge") ELSE Res(tab[j], <<>>, <<>>, <<>>, ""))
-        ELSE CallFn(P, S, tab, {}, j)]
+        IF IsMixed(P) /\ base[j].err = "" /\ CycPanic(P, S, j) THEN [base[j] EXCEPT !.err = "maycycle"]
+        ELSE IF IsMixed(P) /\ base[j].err = "diverge" /\ CycPanic(P, S, j) THEN [base[j] EXCEPT !.err = "divcycle"]
+        ELSE base[j]]
 
 (***************************************************************************)
 (* Fallback cycles (C13).  The call graph is determined by the inputs      *)
